@@ -179,7 +179,10 @@ where
                                         }
                                     },
                                     Message::Error(error) => {
-                                        end.store(true, AtomicOrdering::Release);
+                                        // a racing delivery may be completing the output
+                                        if end.swap(true, AtomicOrdering::AcqRel) {
+                                            return;
+                                        }
                                         let source_talkback = source_talkback.load();
                                         let source_talkback = source_talkback
                                             .as_ref()
@@ -191,7 +194,9 @@ where
                                         );
                                     },
                                     Message::Terminate => {
-                                        end.store(true, AtomicOrdering::Release);
+                                        if end.swap(true, AtomicOrdering::AcqRel) {
+                                            return;
+                                        }
                                         let source_talkback = source_talkback.load();
                                         let source_talkback = source_talkback
                                             .as_ref()
@@ -239,9 +244,8 @@ where
                                                     "to sink: {message:?}"
                                                 );
                                                 if taken == max
-                                                    && !end.load(AtomicOrdering::Acquire)
+                                                    && !end.swap(true, AtomicOrdering::AcqRel)
                                                 {
-                                                    end.store(true, AtomicOrdering::Release);
                                                     {
                                                         let source_talkback =
                                                             source_talkback.load();
